@@ -113,7 +113,15 @@ func streamDispatch(c *ctx) {
 					fam = []int{3, 4}
 				}
 			}
-			k[iana.KeyParameterKeyOps] = key.Ops(fam)
+			// in each Go form a constructed key may hold the list
+			switch c.r.intn(4) {
+			case 0:
+				k[iana.KeyParameterKeyOps] = append([]int{}, fam...)
+			case 1:
+				k[iana.KeyParameterKeyOps] = []any{fam[0], int64(fam[1])}
+			default:
+				k[iana.KeyParameterKeyOps] = key.Ops(fam)
+			}
 		} else if c.r.intn(6) == 0 {
 			// key_ops present and empty (what ecdh.ToPublicKey writes into the public key of a restricted private key): no
 			// restriction, in the constructed form and after every round trip
@@ -430,4 +438,54 @@ func streamDispatch(c *ctx) {
 			c.fail(failure{Op: "lookup", What: "Signers/Verifiers.Lookup missed an exact key id", Input: fmt.Sprintf("%q", q), Observed: "nil", Expected: "entry", Theorem: "C17_lookup_exact"})
 		}
 	}
+	// lists of every small size (none, exactly one, two entries), entries with and without a key id, every kind of query
+	// (nil, empty, the id, a prefix, another id): an entry whose id is exactly the query, or none
+	ids := [][]byte{nil, {}, []byte("a"), []byte("ab"), []byte("b")}
+	for n := 0; n <= 2; n++ {
+		for combo := 0; combo < 25; combo++ {
+			var vl key.Verifiers
+			var sl key.Signers
+			var have [][]byte
+			for j := 0; j < n; j++ {
+				id := ids[(combo/pow5(j))%5]
+				kk := key.Key{iana.KeyParameterKty: 4}
+				if id != nil {
+					kk[iana.KeyParameterKid] = id
+				}
+				vl = append(vl, fakeVerifier{k: kk})
+				sl = append(sl, fakeSigner{k: kk})
+				have = append(have, id)
+			}
+			if n < 2 && combo >= pow5(n) {
+				break
+			}
+			for _, q := range ids {
+				v := vl.Lookup(q)
+				sg := sl.Lookup(q)
+				c.eval()
+				c.nontriv(fmt.Sprintf("lookup-small|%d|%v|%d", n, v != nil, len(q)))
+				exact := false
+				for _, h := range have {
+					if bytes.Equal(h, q) {
+						exact = true
+					}
+				}
+				in := fmt.Sprintf("list of %d entries with key ids %q, query %q", n, have, q)
+				if v != nil && !bytes.Equal(v.Key().Kid(), q) || sg != nil && !bytes.Equal(sg.Key().Kid(), q) {
+					c.fail(failure{Op: "lookup", What: "Signers/Verifiers.Lookup returned an entry whose key id is not exactly the requested one", Input: in, Observed: "inexact match", Expected: "exact or none", Theorem: "C17_lookup_exact"})
+				}
+				if (v == nil || sg == nil) && exact {
+					c.fail(failure{Op: "lookup", What: "Signers/Verifiers.Lookup missed an exact key id", Input: in, Observed: "nil", Expected: "entry", Theorem: "C17_lookup_exact"})
+				}
+			}
+		}
+	}
+}
+
+func pow5(j int) int {
+	r := 1
+	for ; j > 0; j-- {
+		r *= 5
+	}
+	return r
 }
